@@ -120,7 +120,7 @@ class Seam:
         self.draws = 0
         self.nontrivial = 0
         self.log_populations = log_populations
-        self._rng = _pyrandom.Random(policy.get("seed", 0))
+        self._seen = {}
         self._nprs = None
         self._script = list(policy.get("decisions", []))
         self._spos = 0
@@ -128,6 +128,19 @@ class Seam:
         self.S = frozenset(policy.get("S", ()))
 
     # ---- helpers
+    def _keyed_rng(self, site, pop_repr, k):
+        """'seeded' policy: a fresh PRNG per choice point, keyed by the seed and the *content* of the choice point
+        (site, round in progress, canonical population, k) plus how many times this exact choice point was met before.
+        Draws are pseudo-random and independent across choice points, a repeated identical choice point (e.g. a
+        get_profile replay) gets a fresh draw, yet nothing depends on the order in which the code under test happens to
+        visit simultaneous choice points (set iteration order / hash seed)."""
+        # the rule's class name is left out of the key: an alias/composite and its documented composition
+        # (IRV vs STV(m=1), Alaska vs Plurality+STV) must meet the same tie with the same draw (C13)
+        key = repr((site, list(self.ctx[-1][1:]) if self.ctx else None, pop_repr, k))
+        n = self._seen.get(key, 0)
+        self._seen[key] = n + 1
+        return _pyrandom.Random(derive(self.policy.get("seed", 0), key, n))
+
     def _np_rs(self):
         if self._nprs is None:
             self._nprs = _np.random.RandomState(derive(self.policy.get("seed", 0), "np") % (2**32))
@@ -195,7 +208,7 @@ class Seam:
         is_transfer = site.endswith("random_transfer")
         nontrivial = k > 0 and distinct >= 2 and not (is_transfer and k == n)
         if self.kind == "seeded":
-            idx = self._rng.sample(range(n), k)
+            idx = self._keyed_rng(site, [_crepr(x) for x in pop], k).sample(range(n), k)
         elif self.kind == "adversary":
             idx = self._adversary_sample(pop, k, site)
         else:
@@ -251,7 +264,7 @@ class Seam:
         outs = []
         for _ in range(k):
             if self.kind == "seeded":
-                i = self._rng.choices(range(len(pop)), weights=[float(x) for x in pw], k=1)[0]
+                i = self._keyed_rng(site, [[_crepr(x) for x in pop], [canon.fs(x) for x in pw]], k).choices(range(len(pop)), weights=[float(x) for x in pw], k=1)[0]
             else:
                 i = None
                 if self.kind == "scripted":
@@ -276,7 +289,7 @@ class Seam:
     # ---- random.uniform / random.random
     def _u(self, site):
         if self.kind == "seeded":
-            return self._rng.random()
+            return self._keyed_rng(site, "u", 1).random()
         if self.kind == "scripted":
             d = self._next_script()
             if d is not None and "u" in d:
@@ -310,7 +323,7 @@ class Seam:
         n = len(items)
         if self.kind == "seeded":
             idx = list(range(n))
-            self._rng.shuffle(idx)
+            self._keyed_rng(site, [_crepr(v) for v in items], n).shuffle(idx)
         else:
             idx = None
             if self.kind == "scripted":
@@ -349,7 +362,7 @@ class Seam:
         for _ in range(n_out):
             if self.kind == "seeded":
                 ws = [pw[i] for i in avail]
-                i = self._rng.choices(avail, weights=ws, k=1)[0]
+                i = self._keyed_rng(site, [[_crepr(x) for x in pop], [round(x, 9) for x in pw], list(avail)], n_out).choices(avail, weights=ws, k=1)[0]
             else:
                 i = None
                 if self.kind == "scripted":
